@@ -251,7 +251,7 @@ class Gen:
             cand = [n for n in ALIGNS if here + (-here % n) - here <= room]
             n = d.choice(cand)      # 1 is always a candidate
             op = dict(k="align", n=n)
-            if (-here % n) <= 64 and not chance(d, 2, 3):
+            if (-here % n) <= 3000 and not chance(d, 2, 3):       # (gaps beyond the initial 256 byte statement buffer too)
                 op["fill"] = d.choice([0, 255, 170, -1, d.int(-128, 255)])
             self.push(op)
         elif k == "phase":
@@ -377,7 +377,10 @@ def strategy_(d, tier):
         g.real_op()
     while g.m.save:
         g.push(dict(k="restore"))
-    return dict(cpus=cpus, first=0 if chance(d, 2, 3) else 1, ops=g.ops)
+    first = 0 if chance(d, 2, 3) else 1
+    # the first target may come from the command line (-cpu) instead of a CPU statement: the implicitly active
+    # CODE segment then starts with whatever the program does first (ORG, reservations, ...)
+    return dict(cpus=cpus, first=first, ops=g.ops, cpuopt=bool(first == 0 and chance(d, 1, 3)))
 
 
 def strategy(tier):
@@ -486,6 +489,11 @@ def render(case):
         tab.append("\tdd %s" % ",".join(t[0] for t in table[j:j + 8]))
     head = ["\tcpu %s" % TABLE_CPU, "\torg 0"]
     src = []
+    args = []
+    if case.get("cpuopt") and not case.get("first") and body and re.match(r"^\s+cpu\s+\S+\s*$", body[0], re.I):
+        args = ["-cpu", body[0].split()[1]]
+        body = ["; (target selected with -cpu %s)" % args[1]] + body[1:]
+        feats.add("cpu-from-command-line")
     if case.get("first"):
         src += head + tab + ["\torg 0"]
         bodyline = len(src) + 1
@@ -495,7 +503,7 @@ def render(case):
         src += body + ["\tlisting on", "\tcpu %s" % TABLE_CPU] + ["\tdephase"] * len(m.phst["code"]) + ["\torg 0"] + tab
     trace = [(t[0] + bodyline,) + t[1:] for t in trace]
     exp = dict(emits=emits, starts=starts, table=table, letters=letters, feats=feats, kinds=kinds, trace=trace,
-               bodylines=(bodyline, bodyline + len(body) - 1))
+               bodylines=(bodyline, bodyline + len(body) - 1), args=args)
     return "\n".join(src) + "\n", exp
 
 
@@ -537,7 +545,7 @@ def execute(case):
     key = None
     if nt:
         key = ",".join(nt) + "|" + engine.digest(" ".join(exp["kinds"]))
-    r = asl.assemble({"t.asm": src}, args=("-L",), want=("t.lst", "trace.txt"), timeout=30, cpu=20,
+    r = asl.assemble({"t.asm": src}, args=("-L",) + tuple(exp["args"]), want=("t.lst", "trace.txt"), timeout=30, cpu=20,
                      env={"ASL_VERIF_TRACE": "trace.txt"})
     if r.timed_out:
         return engine.inconclusive("timeout", classes)
